@@ -144,7 +144,13 @@ SETOP_NEST += ["%s %s (%s %s (%s %s SELECT a FROM t1))" % (_MA, o, _MB, o, _MC, 
 SETOP_NEST += ["WITH w AS (%s %s (%s %s %s)) SELECT w.id FROM w" % (_MA, o, _MB, o, _MC) for o in ('EXCEPT', 'UNION ALL')]
 SETOP_NEST += ["SELECT s.id FROM (%s %s (%s %s %s)) AS s WHERE s.id > 0" % (_MA, o, _MB, o, _MC) for o in ('EXCEPT', 'INTERSECT')]
 SETOP_NEST += ["%s EXCEPT ALL (%s EXCEPT ALL %s)" % (_MA, _MB, _MC), "(%s EXCEPT %s) EXCEPT (%s EXCEPT SELECT a FROM t1)" % (_MA, _MB, _MC)]
-SELECTS = SELECTS + ORDER_GEN + SETOP_TAIL + GROUP_GEN + WINDOW_GEN + SUBQ_GEN + OPPAIR_GEN + SETOP_NEST
+# three-table join chains: every pair of join kinds (the kind of one join must not leak into the next), third table joined to either earlier one
+_JK = ('JOIN', 'INNER JOIN', 'LEFT JOIN', 'LEFT OUTER JOIN', 'FULL JOIN', 'FULL OUTER JOIN', 'CROSS JOIN')
+JOIN_CHAIN = ["SELECT x.a, y.c, z.d FROM t1 AS x %s t2 AS y%s %s t3 AS z%s" % (j1, '' if j1 == 'CROSS JOIN' else ' ON x.id = y.id', j2, '' if j2 == 'CROSS JOIN' else ' ON z.id = %s.id' % k)
+              for j1 in _JK for j2 in _JK for k in ('y', 'x') if not (j2 == 'CROSS JOIN' and k == 'x')]
+JOIN_CHAIN += ["SELECT x.a, y.c, z.d, w.b FROM t1 AS x %s t2 AS y ON x.id = y.id %s t3 AS z ON z.id = y.id %s t1 AS w ON w.id = z.id" % (j1, j2, j3)
+               for j1, j2, j3 in (('FULL JOIN', 'JOIN', 'LEFT JOIN'), ('LEFT JOIN', 'FULL JOIN', 'JOIN'), ('JOIN', 'LEFT JOIN', 'FULL JOIN'), ('FULL JOIN', 'LEFT JOIN', 'JOIN'))]
+SELECTS = SELECTS + ORDER_GEN + SETOP_TAIL + GROUP_GEN + WINDOW_GEN + SUBQ_GEN + OPPAIR_GEN + SETOP_NEST + JOIN_CHAIN
 
 DML = [
     "DELETE FROM t1 WHERE a > 1",
